@@ -130,18 +130,30 @@ def _decorator_opaque(deco: Scope) -> 'Optional[str]':
     rets = [x for x in own_nodes(deco.node) if isinstance(x, ast.Return) and x.value is not None]
     if any(isinstance(r.value, ast.Name) and r.value.id == fp for r in rets) and not inner:
         return None         # returns the function itself (a registering / marking decorator)
-    if len(inner) != 1:
-        return 'no single wrapper function'
-    w = inner[0]
+    if not inner:
+        return 'no wrapper function'
+    wnames = {w.name for w in inner}
+    for r in rets:
+        names = {x.id for x in ast.walk(r.value) if isinstance(x, ast.Name)}
+        if not (names & wnames) and not (isinstance(r.value, ast.Name) and r.value.id == fp):
+            return 'returns something other than its wrapper'
+    # one wrapper, or one per kind of function (`if iscoroutinefunction(func): <async wrapper> ... <sync wrapper>`): each must be
+    # transparent on its own
+    for w in inner:
+        why = _wrapper_opaque(w, fp)
+        if why is not None:
+            return why
+    return None
+
+
+def _wrapper_opaque(w: Scope, fp: str) -> 'Optional[str]':
+    import ast
+    from ..load import own_nodes
     a = w.node.args
     if not (a.vararg and a.kwarg) or a.kwonlyargs or a.defaults:
         return 'the wrapper does not take (*args, **kwargs)'
     va, kw = a.vararg.arg, a.kwarg.arg
     lead = [x.arg for x in a.posonlyargs + a.args]          # `self` of a decorated method, handed on in place
-    for r in rets:
-        names = {x.id for x in ast.walk(r.value) if isinstance(x, ast.Name)}
-        if w.name not in names and not (isinstance(r.value, ast.Name) and r.value.id == fp):
-            return 'returns something other than its wrapper'
 
     def is_fwd(v) -> bool:
         if isinstance(v, ast.Await):
